@@ -1845,4 +1845,25 @@ theorem replay_verdict {H R} {inv : Invoice} {ctx : Ctx} {g : Htlc} (hg : Good H
     obtain ⟨⟨p, hp, hHp⟩, _⟩ := hg.settledS hst
     simp [hp, hh, hHp]
 
+theorem applyAdd_htlcs {H : Nat → Nat} {inv inv' : Invoice} {h : Htlc} {ns : Option CState}
+    (ha : applyAdd H inv h ns = some inv') :
+    ∃ f, StateOnly f ∧ inv'.htlcs = (inv.htlcs ++ [h]).map f := by
+  unfold applyAdd at ha
+  by_cases c : (findHtlc inv h.key).isSome = true
+  · simp [c] at ha
+  rw [if_neg c] at ha
+  cases ns with
+  | none =>
+    simp only at ha
+    obtain ⟨f, hf, hl, _⟩ := alignHtlcs_map ha
+    exact ⟨f, hf, hl⟩
+  | some s =>
+    simp only at ha
+    cases hus : updatedInvoiceState H { inv with htlcs := inv.htlcs ++ [h] } s inv.preimage with
+    | none => simp [hus] at ha
+    | some s' =>
+      simp only [hus] at ha
+      obtain ⟨f, hf, hl, _⟩ := alignHtlcs_map ha
+      exact ⟨f, hf, hl⟩
+
 end LndModel.C15
